@@ -31,6 +31,7 @@ def run(ctx):
             copy = sum(1 for o in objs if o[1] == name)
             objs.append((lf.add_no_format(name, consumer_name='C'), name, copy))
         expected = []
+        shared = bytearray()
         for _ in range(rng.randrange(0, 7)):
             L = rng.choice([0, 1, 2, 3, 5, 6, 7, 8, 9, 11, 12, 13, cap - 7, cap - 6, cap, cap + 1, 2 * cap + 3, rng.randrange(0, 3 * cap)])
             L = max(0, min(L, 40000))
@@ -38,7 +39,10 @@ def run(ctx):
             raw = bytes(rng.getrandbits(8) for _ in range(L))
             if kind == 2:
                 raw = bytes(b % 128 for b in raw)
-            p = raw if kind == 0 else bytearray(raw) if kind == 1 else raw.decode('ascii')
+            if kind == 1:
+                # ONE buffer per file, refilled before every call: each record holds what the buffer held when it was added
+                shared[:] = raw
+            p = raw if kind == 0 else shared if kind == 1 else raw.decode('ascii')
             obj, name, copy = rng.choice(objs)
             lf.add_no_format_frame_data(obj, p)
             expected.append(((org, copy, name), kind, raw))
